@@ -84,6 +84,17 @@ def is_cwd_expr(node):
     return False
 
 
+def walk_fn(node):
+    """ast.walk over a function body that enters lambdas (they are part of the function) but not nested defs / classes."""
+    todo = list(ast.iter_child_nodes(node))
+    while todo:
+        n = todo.pop()
+        yield n
+        if isinstance(n, (ast.FunctionDef, ast.AsyncFunctionDef, ast.ClassDef)):
+            continue
+        todo.extend(ast.iter_child_nodes(n))
+
+
 def worst(kinds):
     kinds = [k for k in kinds if k != 'NoneK'] or ['NoneK']
     return max(kinds, key=ORDER.index)
@@ -201,9 +212,12 @@ class Prov:
             seen.add(q)
             fn = self.cg.funcs[q]
             locals_ = self.cg.local_defs(q)
-            for n in walk_no_nested(fn):
+            for n in walk_fn(fn):
                 if isinstance(n, ast.Call):
                     todo.extend(self.callees(q, n))
+                    if isinstance(n.func, ast.Attribute) and not (dotted(n.func) or '').startswith(('os.', 're.', 'struct.', 'copy.', 'sys.', 'log.', 'logging.')):
+                        # dynamic dispatch: any repo method of that name may be the target
+                        todo.extend(self.cg.methods_by_name.get(n.func.attr, []))
                 if isinstance(n, ast.Name) and isinstance(n.ctx, ast.Load):
                     if n.id in locals_:
                         todo.append(locals_[n.id])
@@ -910,11 +924,13 @@ class Prov:
         out = []
         for q in quals:
             fn = self.cg.funcs[q]
-            for n in walk_no_nested(fn):
+            for n in walk_fn(fn):
                 if isinstance(n, ast.Call):
                     d = dotted(n.func)
                     if d in SINKS and n.args:
                         out.append((q, n, d, n.args[0]))
+                    elif d in ('filter', 'map') and len(n.args) == 2 and dotted(n.args[0]) in SINKS:
+                        out.append((q, n, dotted(n.args[0]), n.args[1]))       # the sink is applied to every element
                     elif isinstance(n.func, ast.Attribute) and n.func.attr in PATH_SINK_METHODS and not (d or '').startswith(('os.', 're.', 'struct.')) \
                             and not self.cg.callees(q, n):
                         out.append((q, n, '<path>.' + n.func.attr, n.func.value))
@@ -1151,8 +1167,29 @@ class Prov:
                 idx = [i for i, x in enumerate(p.values) if x is child][0]
                 for prev in p.values[:idx]:
                     constraints.append((self._formula(prev, qual), isinstance(p.op, ast.And)))
+            # guard clauses: an earlier `if t: <leaves>` in the same block means t was false here (and symmetrically)
+            if isinstance(child, ast.stmt):
+                for field in ('body', 'orelse', 'finalbody'):
+                    lst = getattr(p, field, None)
+                    if isinstance(lst, list) and any(x is child for x in lst):
+                        idx = [i for i, x in enumerate(lst) if x is child][0]
+                        for prev in lst[:idx]:
+                            if isinstance(prev, ast.If):
+                                if _exits(prev.body) and not _exits(prev.orelse):
+                                    constraints.append((self._formula(prev.test, qual), False))
+                                elif prev.orelse and _exits(prev.orelse) and not _exits(prev.body):
+                                    constraints.append((self._formula(prev.test, qual), True))
             child = p
             p = getattr(p, '_parent', None)
+        # the same for the top-level block of the function
+        if isinstance(child, ast.stmt) and p is fn:
+            idx = [i for i, x in enumerate(fn.body) if x is child]
+            for prev in fn.body[:idx[0]] if idx else []:
+                if isinstance(prev, ast.If):
+                    if _exits(prev.body) and not _exits(prev.orelse):
+                        constraints.append((self._formula(prev.test, qual), False))
+                    elif prev.orelse and _exits(prev.orelse) and not _exits(prev.body):
+                        constraints.append((self._formula(prev.test, qual), True))
         if not constraints:
             return 'unguarded'
         atoms = []
